@@ -158,14 +158,17 @@ func vStakingLifecycle(issued bool) {
 	err = mwdb.Update(s.db, func(dbtx mwdb.DBTransaction) error { return s.tx.Rollback(dbtx, b1.Height) })
 	rt.Assert(err == nil, "deposit-block-rolled-back")
 	rt.Assert(vUsedAddresses(s) == 0, "staking-address-no-longer-used-once-its-first-payment-is-gone")
+	listed := false
 	if issued {
-		listed := false
 		for _, e := range s.a.Ents {
 			listed = listed || (len(e.K) > 44 && binary.BigEndian.Uint16(e.K[42:44]) == massutil.AddressClassWitnessStaking)
 		}
-		rt.Assert(listed, "issued-staking-address-still-listed-after-its-first-deposit-is-rolled-back")
 		rt.Reach("issued")
 	}
 	rt.Assert(len(history(false)) == 0 && s.c.Lookup(ck) == nil && s.u.Lookup(canonicalUnspentKey(verifWID, &D.Hash, 0)) == nil, "deposit-left-the-confirmed-history")
 	rt.Reach("end")
+	if issued {
+		// last, so that the known finding recorded for this assertion does not hide the checks above
+		rt.Assert(listed, "issued-staking-address-still-listed-after-its-first-deposit-is-rolled-back")
+	}
 }
